@@ -93,8 +93,10 @@ def check_self_feed(ctx):
                 recv = arg = None
                 if isinstance(c, ast.Call) and isinstance(c.func, ast.Attribute) and c.func.attr in ("extend", "extendleft", "update") and c.args:
                     recv, arg = c.func.value, c.args[0]
-                elif isinstance(c, ast.AugAssign) and isinstance(c.op, ast.Add):
-                    recv, arg = c.target, c.value
+                elif isinstance(c, (ast.AugAssign, ast.Assign)) and A.as_augassign(c) is not None \
+                        and isinstance(A.as_augassign(c)[1], ast.Add):
+                    # X += self.g()  /  X = X + self.g()
+                    recv, _, arg = A.as_augassign(c)
                 elif isinstance(c, ast.For) and isinstance(c.iter, ast.Call):
                     # for v in self.g(): X.append(v)
                     apps = [a for a in A.walk_body(c.body) if isinstance(a, ast.Call) and isinstance(a.func, ast.Attribute)
@@ -165,6 +167,9 @@ def _empties(node, field, alias):
                 and _field_of(n.func.value, alias) == field:
             return True
         if isinstance(n, ast.Assign):
+            aug = A.as_augassign(n)
+            if aug is not None and isinstance(aug[1], ast.Add):
+                continue    # `buf = buf + more` is the spelled-out `buf += more`: it grows the buffer
             for t in n.targets:
                 if A.is_self_attr(t, field):
                     return True
@@ -277,9 +282,13 @@ def _bufsize_aliases(fn):
 
 
 def _counters(fn):
-    """Locals incremented by one (`x += 1`): fill counters."""
-    return {n.target.id for n in A.walk_local(fn) if isinstance(n, ast.AugAssign) and isinstance(n.op, ast.Add)
-            and isinstance(n.target, ast.Name) and A.is_const(n.value, 1)}
+    """Locals incremented by one (`x += 1` or the spelled-out `x = x + 1`): fill counters."""
+    out = set()
+    for n in A.walk_local(fn):
+        aug = A.as_augassign(n) if isinstance(n, (ast.AugAssign, ast.Assign)) else None
+        if aug is not None and isinstance(aug[1], ast.Add) and isinstance(aug[0], ast.Name) and A.is_const(aug[2], 1):
+            out.add(aug[0].id)
+    return out
 
 
 def _run_aliases(fn):
@@ -510,7 +519,10 @@ def check_block_loops(ctx):
             if a is fn:
                 break
             if isinstance(a, ast.If):
-                conds.append((A.src(a.test), any(child is x for x in a.body)))
+                # `if not c: B else: A` is `if c: A else: B`: record the truth value of the un-negated test
+                test, pol = A.strip_not(a.test)
+                in_body = any(child is x for x in a.body)
+                conds.append((A.src(test), in_body if pol else not in_body))
             child = a
         mode = "remainder" if ("self._yield_on_remainder", True) in conds else (
             "input" if ("self._buffer_input", True) in conds else ("output" if ("self._buffer_input", False) in conds else None))
@@ -570,8 +582,12 @@ def check_fill_request_methods(ctx):
         fills = [c for _, c in p.calls() if A.src(c.func) == "self._el_fill"]
         bufs = [c for _, c in p.calls() if isinstance(c.func, ast.Attribute) and c.func.attr in ("append", "insert", "appendleft")
                 and A.is_self_attr(c.func.value) and c.args and A.src(c.args[-1]) == val]
-        incs = [s for s in p.stmts() if isinstance(s, ast.AugAssign) and A.src(s.target) == "self._n_count"]
-        ok = (len(fills) == 1 and len(bufs) == 0 and len(incs) == 1 and isinstance(incs[0].op, ast.Add) and A.is_const(incs[0].value, 1)
+        # every store into the counter on the path; `self._n_count += 1` and `self._n_count = self._n_count + 1` are the same
+        incs = [s for s in p.stmts() if isinstance(s, (ast.Assign, ast.AugAssign, ast.AnnAssign))
+                and any(A.src(t) == "self._n_count" for t in A.assigned_targets(s))]
+        by_one = [A.as_augassign(s) for s in incs]
+        ok = (len(fills) == 1 and len(bufs) == 0 and len(incs) == 1 and by_one[0] is not None and isinstance(by_one[0][1], ast.Add)
+              and A.is_const(by_one[0][2], 1)
               and A.src(fills[0].args[0]) == val) or (len(fills) == 0 and len(bufs) == 1 and not incs and bufs[0].func.attr == "append")
         ctx.check("C16-d", ok, fill, "FillRequest.fill [%s]: %d fill(s) of the element, %d counter increment(s), %d store(s) into a "
                   "buffer: a value is either filled and counted once, or appended to the input buffer once" % (
@@ -587,27 +603,36 @@ def check_fill_request_methods(ctx):
     n = 0
     seen = set()
     for p in P.paths_of(req):
-        cnt = [pol for t, pol in p.literals() if isinstance(t, ast.Compare) and A.src(t.left) == "self._n_count"
-               and _bufsize_expr(t.comparators[0], req) == "n" and isinstance(t.ops[0], ast.GtE)]
+        cnt = [full for full in (_count_test(t, pol, req) for t, pol in p.literals()) if full is not None]
         if not cnt:
             continue
         n += 1
         stores = [s for s in p.stmts() if isinstance(s, (ast.Assign, ast.AugAssign)) and any(A.src(t) == "self._n_count" for t in A.assigned_targets(s))]
         reqs = [i for i, e in enumerate(p.ev) if e[0] in ("iter", "loop0") and isinstance(e[1], ast.For) and A.src(e[1].iter) == "self._el_request()"]
         first_block = cnt[0]
-        key = (first_block, bool(stores))
+        if first_block:
+            ok_counter = len(stores) >= 1 and _counter_reduced(stores[0], req) and bool(reqs) and p.index(stores[0]) > reqs[0]
+            rs = [i for i, c in p.calls() if A.src(c.func) == "self._el_reset"]
+            # the _reset test that belongs to the requested block: one in the statement list that holds the request loop
+            # (a later `if self._reset:` of the buffer loop says nothing about this block)
+            want = []
+            if reqs:
+                block = A.parent(p.ev[reqs[0]][1])
+                for i, e in enumerate(p.ev):
+                    if e[0] == "cond" and i > reqs[0] and (block is req or block in list(A.ancestors(e[1]))):
+                        want.extend(pol for t, pol in A.literals(e[1], e[2]) if A.src(t) == "self._reset")
+            ok_reset = bool(want) and (not want[0] or bool(rs and reqs and rs[0] > reqs[0]))
+            key = (first_block, bool(stores), ok_counter, ok_reset)
+        else:
+            key = (first_block, bool(stores))
         if key in seen:
             continue
         seen.add(key)
         if first_block:
-            ok = len(stores) >= 1 and A.src(stores[0].value) in ("self._n_count % self.bufsize", "0", "self._n_count - self.bufsize") \
-                and bool(reqs) and p.index(stores[0]) > reqs[0]
-            ctx.check("C16-f", ok, req, "FillRequest.request [%s] requests the filled element without reducing the fill counter "
+            ctx.check("C16-f", ok_counter, req, "FillRequest.request [%s] requests the filled element without reducing the fill counter "
                       "afterwards: the same block would be requested again" % p.describe(3),
                       detail="request(): counter reduced after the element was requested", construct="request-counter", path=p)
-            rs = [i for i, c in p.calls() if A.src(c.func) == "self._el_reset"]
-            want = [pol for t, pol in p.literals() if A.src(t) == "self._reset"]
-            ctx.check("C16-f", bool(want) and (not want[0] or (rs and rs[0] > reqs[0])), req, "FillRequest.request does not reset the "
+            ctx.check("C16-f", ok_reset, req, "FillRequest.request does not reset the "
                       "element after a requested block when _reset is set [%s]" % p.describe(3),
                       detail="request(): reset after the requested block iff _reset", construct="request-reset:%s" % (want[0] if want else None), path=p)
         else:
@@ -616,6 +641,34 @@ def check_fill_request_methods(ctx):
             ctx.check("C16-f", not stores or True, req, "", detail="request(): below a full block the element is not requested at the "
                       "head of request()", construct="request-below")
     ctx.instances_floor("C16-f/request", n, 2, "paths of FillRequest.request through the count test")
+
+
+def _count_test(t, pol, fn):
+    """True / False when the literal (t, pol) says `self._n_count >= <bufsize>` / its negation, in whatever spelling
+    (`bufsize <= self._n_count`, a refuted `self._n_count < bufsize`, ...); None for any other literal."""
+    if not isinstance(t, ast.Compare):
+        return None
+    lc = K.linear_cmp(t)
+    if lc is None:
+        return None
+    coef, const, op = lc if pol else K.negate_linear(lc)
+    bs = [n for n in coef if n in _bufsize_aliases(fn) | {"self.bufsize"}]
+    if const != 0 or len(coef) != 2 or len(bs) != 1 or "self._n_count" not in coef:
+        return None
+    c, b = coef["self._n_count"], coef[bs[0]]
+    if (c, b, op) == (-1, 1, "<="):      # bufsize - count <= 0
+        return True
+    if (c, b, op) == (1, -1, "<"):       # count - bufsize < 0
+        return False
+    return None
+
+
+def _counter_reduced(st, fn):
+    """`self._n_count = self._n_count % bufsize` (or `%=`), `... - bufsize` (or `-=`), or `self._n_count = 0`."""
+    aug = A.as_augassign(st)
+    if aug is not None:
+        return isinstance(aug[1], (ast.Mod, ast.Sub)) and _bufsize_expr(aug[2], fn) == "n"
+    return isinstance(st, ast.Assign) and A.is_const(st.value, 0)
 
 
 # -- C16-g -----------------------------------------------------------------------------------
@@ -637,7 +690,7 @@ def check_construction(ctx):
                 if not pol and isinstance(t, ast.BoolOp):
                     pass
             # the validating test must have been refuted on this path
-            lits = [(A.src(t), pol) for t, pol in _lits_before(p, stores[0][0])]
+            lits = [(A.norm_src(t), pol) for t, pol in _lits_before(p, stores[0][0])]
             checked = ("bufsize != int(bufsize)", False) in lits and ("bufsize < 1", False) in lits
         key = ("bufsize", ok, checked)
         if key not in seen:
@@ -674,7 +727,7 @@ def check_construction(ctx):
             elif A.src(st.value) in ("bool(buffer_output)", "buffer_output"):
                 mm[st.targets[0].id] = "bo"
     for what, test_has in (("bufsize", "bufsize < 1"), ("buffering mode", "int(bi) + int(bo) != 1")):
-        hit = [r for r in rs if A.enclosing(r, ast.If) is not None and test_has in A.src_with(A.enclosing(r, ast.If).test, mm)]
+        hit = [r for r in rs if (test_has, True) in _raise_atoms(r, mm)]
         ok = len(hit) == 1 and res.canon(hit[0].exc.func if isinstance(hit[0].exc, ast.Call) else hit[0].exc) == EXC + "LenaValueError"
         ctx.check("C16-g", ok, init, "FillRequest.__init__ does not reject a bad %s with LenaValueError" % what,
                   detail="bad %s -> LenaValueError" % what, construct="init-raise:" + what)
@@ -721,6 +774,32 @@ def check_construction(ctx):
                   "by the elements after it (and only be returned raw when there are none)" % A.short(v, 60),
                   detail="request() = self._after.run(self._fill_request.request())", construct="seq-request:%s" % after, path=p)
     ctx.instances_floor("C16-g/seq-request", n, 1, "return paths of FillRequestSeq.request")
+
+
+def _raise_atoms(r, mapping):
+    """The atoms of the test of the `if` that guards raise statement *r*, as (canonical source, truth value on the way to r):
+    `if a or b < 1: raise` and `if not (a or b < 1): ... else: raise` both give [(a, True), (b < 1, True)]."""
+    iff = child = r
+    for a in A.ancestors(r):
+        if isinstance(a, ast.If):
+            iff = a
+            break
+        child = a
+    else:
+        return []
+    truth = any(child is x for x in iff.body)
+    out = []
+
+    def atoms(t, pol):
+        t, p = A.strip_not(t)
+        pol = pol if p else not pol
+        if isinstance(t, ast.BoolOp):
+            for v in t.values:
+                atoms(v, pol)
+        else:
+            out.append((A.norm_src(t, mapping), pol))
+    atoms(iff.test, truth)
+    return out
 
 
 def _lits_before(p, idx):
